@@ -322,3 +322,34 @@ func init() {
 		Rules: []Rule{RuleCPanic, RuleDDiv, RuleDNilFlag, RuleDFlagInt, RuleDMakeCap, RuleDRecursion, RuleKNestedLimit, RuleKErrors, RuleDOutAfter, RuleELoops},
 	})
 }
+
+func init() {
+	claim(&Property{
+		ID: "C16",
+		Decides: []string{
+			"(K-all-postings) every posting of every transaction is written (no skip condition in the loop over the postings), and the amount on the valuation branch is Posting.Value; with C01's pair algebra (J-pair, J-valuation) the postings of a transaction sum to zero;",
+			"(K-transcode-order, K-sorted-days) entries follow the sorted days, and within a day opens come before transactions before closes;",
+			"(F-valuation-open) the predicate that recognises generated valuation accounts accepts what Registry.ValuationAccountFor builds (violated on this tree: known finding);",
+			"(D-nilflag) a missing valuation is an error, not a nil dereference; (D-check-first, G1) the checker and the price stage precede the valuation.",
+		},
+		NotDecided: []string{
+			"open-before-use for user accounts (that is the checker's job, C04); completeness against a reference beancount run; escaping of descriptions for beancount.",
+		},
+		Rules: []Rule{RuleKAllPostings, RuleJPair, RuleJValuation, RuleKTranscodeOrder, RuleKSortedDays, RuleFValuationOpen, RuleDNilFlag, RuleDCheckFirst, RuleG1},
+	})
+	claim(&Property{
+		ID: "C19",
+		Decides: []string{
+			"(I-locks) every access to the registries' guarded maps happens with the mutex held (exclusively for writes), computed as a must-lockset over the CFG with deferred unlocks; unlocked helpers are called only with the lock held;",
+			"(B1, B2) what the registries hand out is immutable: no append through a reslice of shared storage, account and commodity fields are written only while the object is created, no element store into an account's segments;",
+			"(G3) two stages of one Process call share only registries, interned objects, the builder (unused by callbacks) or configuration objects no callback stores into;",
+			"(K-chan) every channel made by cpr.Produce/FanIn is closed by an unconditional defer in its worker; the only blocking channel operations reachable from a command are the selects of cpr.Push/Pop (with ctx.Done()) and receives dominated by a successful Wait; cpr.Seq's pool cancels on error, and in pools that do not, no consumer can fail before draining its input;",
+			"(K-fifo, D-push-once, F-directive-types, K-nested-limit) one goroutine per stage, each item forwarded exactly once, no directive type is dropped between the stages, no concurrency limit on the group with nested submission.",
+		},
+		NotDecided: []string{
+			"race freedom in general: no pointer analysis is available (x/tools v0.29 has no go/pointer; VTA resolves calls, not aliases), so races through objects other than the registries, interned objects and stage arguments are not excluded;",
+			"schedule-dependent liveness beyond the protocol rules.",
+		},
+		Rules: []Rule{RuleILocks, RuleB1, RuleB2, RuleG3, RuleKChan, RuleKFifo, RuleDPushOnce, RuleFDirectiveTypes, RuleKNestedLimit},
+	})
+}
